@@ -29,6 +29,8 @@ const RECEIVER: &str = r##"<scxml xmlns="http://www.w3.org/2005/07/scxml" versio
  <state id="t">
   <onentry><script>mark('en', 't')</script></onentry>
   <onexit><script>mark('ex', 't')</script></onexit>
+  <invoke srcexpr="noSuchVariable.uri"/>
+  <transition event="error.execution"><script>mark('ierr')</script></transition>
   <transition event="stop" target="end"/>
   <transition event="follow"><script>mark('f', _event.data.u)</script></transition>
   <transition event="*" target="s">
@@ -69,6 +71,7 @@ enum Kind {
 }
 
 struct ScenarioResult {
+    invoke_errors: u64,
     order: Vec<String>,
     violations: Vec<(String, String)>,
     inconclusive: Option<String>,
@@ -79,6 +82,7 @@ struct ScenarioResult {
 
 fn scenario(kinds: &[Kind], m: usize, jitter: u64) -> ScenarioResult {
     let mut res = ScenarioResult {
+        invoke_errors: 0,
         order: vec![],
         violations: vec![],
         inconclusive: None,
@@ -192,6 +196,8 @@ fn scenario(kinds: &[Kind], m: usize, jitter: u64) -> ScenarioResult {
     let mut f_marks: HashMap<String, u32> = HashMap::new();
     let mut last_n: BTreeMap<String, i64> = BTreeMap::new();
     let mut stopped = false;
+    // entering state t starts an <invoke> whose argument fails: the error event it raises is part of that macrostep
+    let mut invoke_error_due: Option<String> = None;
     for e in &log {
         let is_tracer = e.tracer == recv.tracer;
         let is_mark = e.tracer == 0 && matches!(&e.ev, Ev::Mark { session, .. } if *session == target);
@@ -202,7 +208,19 @@ fn scenario(kinds: &[Kind], m: usize, jitter: u64) -> ScenarioResult {
             tids.insert(e.tid);
         }
         match &e.ev {
+            Ev::AtIdle { internal_queue, .. } if *internal_queue > 0 => {
+                res.violations.push((
+                    "overlap:internal-events-pending-when-next-event-is-dequeued".into(),
+                    format!("the session went for its next external event while {} internal event(s) of the macrostep of {:?} were still queued", internal_queue, current),
+                ));
+            }
             Ev::XRecv(ev) => {
+                if let Some(c) = invoke_error_due.take() {
+                    res.violations.push((
+                        "overlap:next-event-before-invoke-error".into(),
+                        format!("event {} was dequeued before the error.execution raised by the <invoke> of the state entered for {} had been processed", ev.name, c),
+                    ));
+                }
                 if ev.name == "stop" {
                     stopped = true;
                     current = None;
@@ -240,6 +258,11 @@ fn scenario(kinds: &[Kind], m: usize, jitter: u64) -> ScenarioResult {
                     _ => String::new(),
                 };
                 match tag.as_str() {
+                    "en" if a0 == "t" => invoke_error_due = current.clone().or(Some("?".into())),
+                    "ierr" => {
+                        invoke_error_due = None;
+                        res.invoke_errors += 1;
+                    }
                     "p" => {
                         *p_marks.entry(a0.clone()).or_insert(0) += 1;
                         if current.as_deref() != Some(a0.as_str()) {
@@ -337,6 +360,7 @@ pub fn run(args: &Args, rep: &mut Report) {
         let res = scenario(&kinds, m, jitter);
         rep.evaluations += 1;
         rep.count("events_processed", res.events as u64);
+        rep.count("invoke_step_errors_inside_macrosteps", res.invoke_errors);
         rep.count(if jitter != 0 { "runs_with_lock_jitter" } else { "runs_plain_scheduling" }, 1);
         for k in &kinds {
             rep.count(&format!("producers_{:?}", k), 1);
